@@ -66,7 +66,15 @@ fn run_case(dbd: &DbDef, r: &mut Rng, model: &mut model::Model, rep: &mut Report
     let all_a = names_a.join(", ");
     let names_b: Vec<String> = b.schema.cols.iter().map(|c| qn(unq, tb, &c.0)).collect();
     let all_ab = format!("{}, {}", all_a, names_b.join(", "));
-    let script = dbd.script();
+    let mut script = dbd.script();
+    // one case in three: secondary indexes on random columns (the laws and the model know no indexes)
+    if r.chance(1, 3) {
+        for ix in random_index_sql(r, dbd) {
+            db.must(&ix);
+            script.push_str(&format!("{};\n", ix));
+        }
+        rep.count("database_with_secondary_indexes");
+    }
 
     let mut family = |rep: &mut Report, name: &str, members: Vec<String>, db: &mut Db| -> Vec<Out> {
         let outs: Vec<Out> = members.iter().map(|m| db.query(m)).collect();
